@@ -1143,6 +1143,11 @@ func checkC16(c *Ctx, p *Prog, r *Result) {
 		}
 	}
 
+	if srv := p.ByName["fdo.TO2Server.Respond"]; srv != nil {
+		fs := NewFlow(p, &RuleSet{}, []*ssa.Function{srv}, nil)
+		c16DoneExcludesMore(p, r, fs.Order)
+	}
+
 	// (f) devmod writer MTU
 	r.rule("C16.devmod-mtu", "the MTU given to Devmod.Write is the same value that the service-info exchange loop receives (the MaxDeviceServiceInfoSize negotiated in message 66/67)")
 	r.floor("C16.devmod-mtu", 1)
